@@ -46,7 +46,10 @@ Tags(ev) ==
       ELSE LET from == KeyOfName(a, ev.from)
                to   == KeyOfName(a, ev.to)
                inp  == NonEmpty(ev.in_segs)
-               pre  == a.base \o Prefix(from, a.names, a.default) IN
+               \* the default locale has no prefix, but a URL MAY carry it (/en/about reads as en and is served by the en family):
+               \* a first segment equal to the name of the `from` locale is its prefix, for the default locale too
+               explicit == from = a.default /\ Len(inp) > Len(a.base) /\ SubSeq(inp, 1, Len(a.base)) = a.base /\ inp[Len(a.base) + 1] = a.names[from]
+               pre  == IF explicit THEN a.base \o <<a.names[from]>> ELSE a.base \o Prefix(from, a.names, a.default) IN
            \* only inputs that are well-formed URLs of the `from` locale are judged (a previous step was already flagged otherwise)
            IF ~(Len(inp) >= Len(pre) /\ SubSeq(inp, 1, Len(pre)) = pre) THEN {}
            ELSE LET rest == SubSeq(inp, Len(pre) + 1, Len(inp))
